@@ -151,6 +151,25 @@ def type_sweep():
                     b[0] = zero
                     if _nonzero(a, zero):
                         bad.append('RawArray(%r) objects share storage' % (code,))
+    # composite types with a partial initialiser: what the initialiser does not name is zero,
+    # whatever the recycled storage held before
+    class Pt(ctypes.Structure):
+        _fields_ = [('x', ctypes.c_int), ('y', ctypes.c_double), ('z', ctypes.c_short)]
+    Arr5 = ctypes.c_int * 5
+    for rnd in range(3):
+        for t, args, want in ((Pt, (7,), (7, 0.0, 0)), (Pt, (), (0, 0.0, 0)), (Pt, (1, 2.5), (1, 2.5, 0)),
+                              (Arr5, (1, 2), [1, 2, 0, 0, 0]), (Arr5, (), [0] * 5)):
+            n += 1
+            junk = sc.RawArray('B', [0xDD] * ctypes.sizeof(t))
+            del junk
+            gc.collect()
+            for maker in (sc.RawValue, lambda *a: sc.Value(*a).get_obj()):
+                o = maker(t, *args)
+                got = (o.x, o.y, o.z) if t is Pt else list(o)
+                if got != want:
+                    bad.append('RawValue(%s, *%r) reads %r' % (t.__name__, args, got))
+                del o
+                gc.collect()
     return {'cases': n, 'bad': bad}
 
 
